@@ -1,8 +1,8 @@
 """std / serde_json models for the mirsym prototype (design-phase probe)."""
-import re, json
+import re, json, os
 import z3
 from .core import *
-from .core import MODELS, MODEL_PATTERNS, model, model_rx
+from .core import MODELS, MODEL_PATTERNS, model, model_rx, model_override
 
 def deref_all(v):
     while isinstance(v, Ptr): v = v.cell.v
@@ -65,7 +65,7 @@ def m_fn_call(ex, a, m):
 
 def clone_value(ex, v):
     """semantic Clone"""
-    if isinstance(v, (Int, Bool, F64, NumberV, FnItem, Opaque)): return v
+    if isinstance(v, (Int, Bool, F64, NumberV, FnItem, Opaque, PyFn)): return v
     if isinstance(v, StrV): return StrV(v.chars)
     if isinstance(v, Ptr):
         if v.kind in ('rc', 'ref', 'raw'): return v
@@ -140,10 +140,44 @@ def m_replace(ex, a, m):
             out.append(src.chars[i]); i += 1
     return StrV(out)
 @model_rx(r'^(?:core::|alloc::|std::)?str::<impl str>::parse$')
-def m_parse_i32(ex, a, m):
-    txt = conc(ex, as_str(a[0]), 'number text')
-    if re.fullmatch(r'[+-]?\d+', txt) and -(1 << 31) <= int(txt) < (1 << 31):
-        return ok(Int(int(txt) & 0xffffffff, 'i32'))
+def m_parse_int(ex, a, m):
+    """str::parse::<iN/uN>() ; the target type is read from the call's turbofish. Symbolic characters are supported when every one is
+    a decimal digit on this path (the lexer only passes digit runs); otherwise the character classes are forked."""
+    tm = re.search(r'::parse::<(\w+)>$', ex.cur_callee)
+    ty = tm.group(1) if tm else 'i32'
+    if ty not in INT_BITS or ty == 'char': raise Unsupported(f'str::parse::<{ty}>')
+    sv = as_str(a[0]); txt = sv.concrete()
+    nb = INT_BITS[ty]; sg = ty[0] == 'i'
+    lo, hi = (-(1 << (nb - 1)), (1 << (nb - 1)) - 1) if sg else (0, (1 << nb) - 1)
+    if txt is not None:
+        if re.fullmatch(r'[+-]?[0-9]+', txt) and (sg or txt[0] != '-') and lo <= int(txt) <= hi: return ok(Int(int(txt), ty))
+        return err(Opaque('ParseIntError'))
+    chars = list(sv.chars)
+    if not chars: return err(Opaque('ParseIntError'))
+    neg = False
+    c0 = chars[0]
+    def is_c(c, ch):
+        if isinstance(c, str): return c == ch
+        return MM_branch(ex, Bool(c.bv == ord(ch)))
+    if is_c(c0, '-'):
+        if not sg or len(chars) == 1: return err(Opaque('ParseIntError'))
+        neg = True; chars = chars[1:]
+    elif is_c(c0, '+'):
+        if len(chars) == 1: return err(Opaque('ParseIntError'))
+        chars = chars[1:]
+    if len(chars) > 30: raise Unsupported('symbolic number text too long')
+    acc = z3.BitVecVal(0, 128)
+    for c in chars:
+        if isinstance(c, str):
+            if not c.isdigit() or not c.isascii(): return err(Opaque('ParseIntError'))
+            d = z3.BitVecVal(ord(c) - 48, 128)
+        else:
+            if not MM_branch(ex, Bool(z3.And(z3.UGE(c.bv, 48), z3.ULE(c.bv, 57)))): return err(Opaque('ParseIntError'))
+            d = z3.ZeroExt(96, c.bv) - 48
+        acc = acc * 10 + d
+    val = -acc if neg else acc
+    fits = z3.And(val >= z3.BitVecVal(lo, 128), val <= z3.BitVecVal(hi, 128))
+    if MM_branch(ex, Bool(z3.simplify(fits))): return ok(Int(z3.simplify(z3.Extract(nb - 1, 0, val)), ty))
     return err(Opaque('ParseIntError'))
 @model_rx(r'^(?:core::|alloc::|std::)?str::<impl str>::(contains|starts_with|ends_with)$')
 def m_str_pred(ex, a, m):
@@ -154,11 +188,45 @@ def m_is_digit(ex, a):
     c = a[0]; radix = pyint(ex, a[1])
     if radix != 10: raise Unsupported('radix')
     return Bool(z3.And(z3.UGE(c.bv, ord('0')), z3.ULE(c.bv, ord('9'))))
+_NUMERIC_RANGES = None
+def numeric_ranges():
+    """code point ranges with Unicode general category N* (char::is_numeric), from Python's unicodedata"""
+    global _NUMERIC_RANGES
+    if _NUMERIC_RANGES is None:
+        import unicodedata
+        out = []; start = None
+        for cp in range(0x110000):
+            isn = unicodedata.category(chr(cp))[0] == 'N'
+            if isn and start is None: start = cp
+            if not isn and start is not None: out.append((start, cp - 1)); start = None
+        _NUMERIC_RANGES = out
+    return _NUMERIC_RANGES
 @model('char::methods::<impl char>::is_numeric')
 def m_is_numeric(ex, a):
     c = a[0].concrete()
-    if c is None: raise Unsupported('symbolic is_numeric')
-    return Bool(chr(c).isnumeric())
+    if c is not None: return Bool(chr(c).isnumeric() or __import__('unicodedata').category(chr(c))[0] == 'N')
+    x = a[0].bv
+    # ASCII fast path is exact; beyond ASCII the table of the host's Unicode database is used (stated in the evidence as a model)
+    return Bool(z3.Or(z3.And(z3.UGE(x, 48), z3.ULE(x, 57)), *[z3.And(z3.UGE(x, lo), z3.ULE(x, hi)) for lo, hi in numeric_ranges() if lo > 127]))
+@model_rx(r'^char::methods::<impl char>::(is_alphabetic|is_alphanumeric|is_whitespace|is_ascii_digit|is_ascii_alphabetic|is_ascii_alphanumeric|is_ascii|is_ascii_whitespace|is_ascii_punctuation|is_ascii_uppercase|is_ascii_lowercase|is_ascii_hexdigit|is_control|len_utf8)$')
+def m_char_classes(ex, a, m):
+    op = m.group(1); v = deref_all(a[0]); x = v.bv
+    rng = lambda lo, hi: z3.And(z3.UGE(x, lo), z3.ULE(x, hi))
+    if op == 'is_ascii_digit': return Bool(rng(48, 57))
+    if op == 'is_ascii_alphabetic': return Bool(z3.Or(rng(65, 90), rng(97, 122)))
+    if op == 'is_ascii_alphanumeric': return Bool(z3.Or(rng(48, 57), rng(65, 90), rng(97, 122)))
+    if op == 'is_ascii': return Bool(z3.ULT(x, 128))
+    if op == 'is_ascii_uppercase': return Bool(rng(65, 90))
+    if op == 'is_ascii_lowercase': return Bool(rng(97, 122))
+    if op == 'is_ascii_hexdigit': return Bool(z3.Or(rng(48, 57), rng(65, 70), rng(97, 102)))
+    if op == 'is_ascii_whitespace': return Bool(z3.Or(x == 32, x == 9, x == 10, x == 12, x == 13))
+    if op == 'is_ascii_punctuation': return Bool(z3.Or(rng(33, 47), rng(58, 64), rng(91, 96), rng(123, 126)))
+    if op == 'is_control': return Bool(z3.Or(z3.ULT(x, 32), rng(127, 159)))
+    if op == 'len_utf8': return Int(z3.If(z3.ULT(x, 0x80), z3.BitVecVal(1, 64), z3.If(z3.ULT(x, 0x800), z3.BitVecVal(2, 64), z3.If(z3.ULT(x, 0x10000), z3.BitVecVal(3, 64), z3.BitVecVal(4, 64)))), 'usize')
+    c = v.concrete()
+    if c is None: raise Unsupported(f'symbolic char::{op}')
+    ch = chr(c)
+    return Bool({'is_alphabetic': ch.isalpha(), 'is_alphanumeric': ch.isalnum(), 'is_whitespace': ch.isspace()}[op])
 @model_rx(r'^<&?(std::string::String|str|&str)( as|&) PartialEq.*>::(eq|ne)$|^<&?&?(std::string::String|str) as PartialEq<.*>>::(eq|ne)$|^<&?&?(std::string::String|str) as PartialEq>::(eq|ne)$')
 def m_str_eq(ex, a, m):
     x, y = conc(ex, as_str(a[0])), conc(ex, as_str(a[1]))
@@ -582,16 +650,20 @@ def cval(x, model=None):
             import struct
             return struct.unpack('<d', struct.pack('<Q', bits.as_long()))[0]
         return None
-class _Dup(dict): pass
 @model_rx(r'^serde_json::from_str$')
 def m_from_str(ex, a, m):
-    txt = conc(ex, as_str(a[0]), 'json text')
-    try:
-        def bad(x): raise ValueError(x)
-        py = json.loads(txt, parse_constant=bad)
-    except Exception as e:
-        return err(Agg('struct', 'SerdeJsonError', None, [Cell(rstr(str(e)))]))
-    return ok(py_to_variable(py))
+    from . import jsonmodel
+    sv = as_str(a[0])
+    txt = sv.concrete()
+    if txt is not None and os.environ.get('VERIF_JSON_PY'):          # (debug aid) Python's json instead of the model
+        try:
+            def bad(x): raise ValueError(x)
+            return ok(py_to_variable(json.loads(txt, parse_constant=bad)))
+        except Exception as e:
+            return err(Agg('struct', 'SerdeJsonError', None, [Cell(rstr(str(e)))]))
+    k, v = jsonmodel.parse_json(ex, sv.chars)
+    if k == 'err': return err(Agg('struct', 'SerdeJsonError', None, [Cell(rstr(v))]))
+    return ok(v)
 @model('<serde_json::Error as ToString>::to_string')
 def m_sj_err_to_string(ex, a): return StrV(deref_all(a[0]).fields[0].v.chars)
 
@@ -644,7 +716,7 @@ def m_dyn(ex, a, m):
         f = ex.prog.by_key.get((trait, obj.ty, meth))
         if f is None: raise Unsupported(f'no impl of {trait}::{meth} for {obj.ty}')
         return ex.run_fn(f, a)
-    if isinstance(obj, Agg) and obj.kind == 'closure' or isinstance(obj, FnItem):
+    if isinstance(obj, Agg) and obj.kind == 'closure' or isinstance(obj, (FnItem, PyFn)):
         f = ex.prog.by_key.get((trait, 'F', meth))
         if f is None: raise Unsupported(f'no blanket impl of {trait}::{meth}')
         return ex.run_fn(f, a)
@@ -684,9 +756,11 @@ def fmt_debug(ex, v):
     return f'<{type(v).__name__}>'
 def render_arg(ex, arg):
     return fmt_display(ex, arg.fields[0].v) if arg.fields[1].v.tag == 'display' else fmt_debug(ex, arg.fields[0].v)
-def render_arguments(ex, args):
+def render_chars(ex, args):
+    """fmt::Arguments -> list of characters (python str of length 1, or symbolic Int(char)); symbolic strings/chars shown with
+    {} keep their symbolic characters, everything else is rendered concretely (symbolic scalars as placeholders)."""
     tpl = deref_all(args.fields[0].v)
-    if isinstance(tpl, StrV): return tpl.concrete()
+    if isinstance(tpl, StrV): return list(tpl.chars)
     data = tpl.tag[1]
     fa = deref_all(args.fields[1].v)
     fargs = fa.fields if isinstance(fa, Agg) else fa.items
@@ -695,13 +769,19 @@ def render_arguments(ex, args):
         b = ord(data[i])
         if b == 0: break
         if b < 0x80:
-            out.append(data[i + 1:i + 1 + b].encode('latin-1').decode('utf-8', 'replace')); i += 1 + b
+            out.extend(data[i + 1:i + 1 + b].encode('latin-1').decode('utf-8', 'replace')); i += 1 + b
         else:
-            out.append(render_arg(ex, fargs[k].v)); k += 1; i += 1
+            arg = fargs[k].v; v = deref_all(arg.fields[0].v); mode = arg.fields[1].v.tag
+            if mode == 'display' and isinstance(v, StrV): out.extend(v.chars)
+            elif mode == 'display' and isinstance(v, Int) and v.ty == 'char' and v.concrete() is None: out.append(v)
+            else: out.extend(render_arg(ex, arg))
+            k += 1; i += 1
             if b != 0xC0:
                 while i < len(data) and ord(data[i]) >= 0x80 and ord(data[i]) != 0xC0: i += 1
-    return ''.join(out)
-MODELS['format'] = MODELS['std::fmt::format'] = MODELS['alloc::fmt::format'] = lambda ex, a: rstr(render_arguments(ex, a[0]))
+    return out
+def render_arguments(ex, args):
+    return ''.join(c if isinstance(c, str) else (chr(c.concrete()) if c.concrete() is not None else '\ufffd') for c in render_chars(ex, args))
+MODELS['format'] = MODELS['std::fmt::format'] = MODELS['alloc::fmt::format'] = lambda ex, a: StrV(render_chars(ex, a[0]))
 @model_rx(r'^<.* as ToString>::to_string$')
 def m_to_string(ex, a, m):
     v = deref_all(a[0])
@@ -1116,3 +1196,299 @@ def m_mem(ex, a, m):
     elif isinstance(old, Agg) and old.ty == 'Option': c.v = none()
     else: raise Unsupported('mem::take of ' + type(old).__name__)
     return old
+
+# ------------------------------------------------------------------------------------------ Rc / Arc identity and misc
+@model_rx(r'^(Rc|Arc|std::rc::Rc|std::sync::Arc)::ptr_eq$')
+def m_rc_ptr_eq(ex, a, m):
+    x, y = deref_ptr(a[0]), deref_ptr(a[1])
+    return Bool(x.cell is y.cell)
+@model_rx(r'^(std::ptr|core::ptr)::eq$')
+def m_ptr_eq(ex, a, m): return Bool(a[0].cell is a[1].cell)
+@model_rx(r'^(Rc|Arc)::(strong_count|weak_count)$')
+def m_rc_count(ex, a, m): raise Unsupported('reference counts are not modelled')
+@model_rx(r'^(Rc|Arc)::(make_mut|get_mut|try_unwrap|into_inner|unwrap_or_clone)$')
+def m_rc_mut(ex, a, m): raise Unsupported('Rc mutation/unwrapping is not modelled (reference counts are not tracked)')
+@model_rx(r'^(Rc|Arc)::as_ptr$')
+def m_rc_as_ptr(ex, a, m): return Ptr(deref_ptr(a[0]).cell, 'raw')
+@model_rx(r'^<(Rc|Arc)<.*> as From<.*>>::from$')
+def m_rc_from(ex, a, m): return Ptr(Cell(a[0]), 'rc')
+
+# ------------------------------------------------------------------------------------------ more map / vec / slice / string API
+def _mapof(v):
+    t = deref_all(v)
+    if not isinstance(t, MapV): raise Unsupported(f'not a map: {t!r}')
+    return t
+@model_rx(r'^(BTreeMap|HashMap)::(iter|iter_mut)$')
+def m_map_iter(ex, a, m):
+    mp = _mapof(a[0])
+    if not mp.ordered and len(mp.d) > 1: raise Unsupported('iteration order of a HashMap is unspecified')
+    return IterV(iter([Agg('tuple', None, None, [Cell(Ptr(Cell(rstr(k)), 'ref')), Cell(Ptr(mp.d[k], 'ref'))]) for k in mp.keys()]))
+@model_rx(r'^(BTreeMap|HashMap)::(contains_key|get_mut|clear|len|is_empty|values_mut|into_values|into_keys|first_key_value|last_key_value|pop_first|pop_last|append|retain)$')
+def m_map_more(ex, a, m):
+    op = m.group(2); mp = _mapof(a[0])
+    if op == 'contains_key': return Bool(conc(ex, as_str(a[1]), 'map key') in mp.d)
+    if op == 'get_mut':
+        c = mp.d.get(conc(ex, as_str(a[1]), 'map key')); return some(Ptr(c, 'ref')) if c is not None else none()
+    if op == 'clear': mp.d.clear(); return UNIT
+    if op == 'len': return Int(len(mp.d), 'usize')
+    if op == 'is_empty': return Bool(len(mp.d) == 0)
+    if not mp.ordered and len(mp.d) > 1 and op != 'append': raise Unsupported('iteration order of a HashMap is unspecified')
+    ks = mp.keys()
+    if op == 'values_mut': return IterV(iter([Ptr(mp.d[k], 'ref') for k in ks]))
+    if op == 'into_values': return IterV(iter([mp.d[k].v for k in ks]))
+    if op == 'into_keys': return IterV(iter([rstr(k) for k in ks]))
+    if op in ('first_key_value', 'last_key_value'):
+        if not ks: return none()
+        k = ks[0] if op[0] == 'f' else ks[-1]
+        return some(Agg('tuple', None, None, [Cell(Ptr(Cell(rstr(k)), 'ref')), Cell(Ptr(mp.d[k], 'ref'))]))
+    if op in ('pop_first', 'pop_last'):
+        if not ks: return none()
+        k = ks[0] if op == 'pop_first' else ks[-1]; c = mp.d.pop(k)
+        return some(Agg('tuple', None, None, [Cell(rstr(k)), Cell(c.v)]))
+    if op == 'append':
+        other = _mapof(a[1])
+        for k in list(other.d): mp.d[k] = other.d.pop(k)
+        return UNIT
+    if op == 'retain':
+        for k in ks:
+            if not pybool(ex, ex.call_value(a[1], [Ptr(Cell(rstr(k)), 'ref'), Ptr(mp.d[k], 'ref')])): del mp.d[k]
+        return UNIT
+@model_rx(r'^<(BTreeMap|HashMap)<.*> as (?:std::ops::)?Index<.*>>::index$')
+def m_map_index(ex, a, m):
+    mp = _mapof(a[0]); c = mp.d.get(conc(ex, as_str(a[1]), 'map key'))
+    if c is None: raise Panic('key not found in map (Index)')
+    return Ptr(c, 'ref')
+@model_rx(r'^<(BTreeMap|HashMap)<.*> as FromIterator<.*>>::from_iter$')
+def m_map_from_iter(ex, a, m):
+    mp = MapV(ordered=m.group(1) == 'BTreeMap'); it = a[0] if isinstance(a[0], IterV) else make_iter(ex, a[0])
+    while True:
+        x = iter_next(ex, it)
+        if x is None: return mp
+        mp.d[conc(ex, as_str(x.fields[0].v), 'map key')] = Cell(x.fields[1].v)
+def _vecof(v):
+    t = deref_all(v)
+    if not isinstance(t, (VecV, SliceRef)): raise Unsupported(f'not a vec/slice: {t!r}')
+    return t
+@model_rx(r'^(Vec|VecDeque)::(pop|pop_back|insert|remove|truncate|clear|push_front|swap_remove|reserve|shrink_to_fit|as_slice|as_mut_slice|append|extend_from_slice|dedup|retain|drain|split_off|back|front|get_mut|capacity)$')
+def m_vec_more(ex, a, m):
+    op = m.group(2); v = _vecof(a[0]); items = v.items
+    if op in ('pop', 'pop_back'): return some(items.pop().v) if items else none()
+    if op == 'insert':
+        i = pyint(ex, a[1], 'index')
+        if i > len(items): raise Panic('insertion index out of bounds')
+        items.insert(i, Cell(a[2])); return UNIT
+    if op in ('remove', 'swap_remove'):
+        i = ex.index_or_oob(a[1], len(items))
+        if i is None:
+            if m.group(1) == 'VecDeque': return none()
+            raise Panic('removal index out of bounds')
+        if op == 'swap_remove': items[i], items[-1] = items[-1], items[i]; x = items.pop().v
+        else: x = items.pop(i).v
+        return some(x) if m.group(1) == 'VecDeque' else x
+    if op == 'truncate': del items[pyint(ex, a[1]):]; return UNIT
+    if op == 'clear': del items[:]; return UNIT
+    if op == 'push_front': items.insert(0, Cell(a[1])); return UNIT
+    if op in ('reserve', 'shrink_to_fit'): return UNIT
+    if op in ('as_slice', 'as_mut_slice'): return Ptr(Cell(SliceRef(items)), 'ref')
+    if op == 'append':
+        o = _vecof(a[1]); items.extend(o.items); del o.items[:]; return UNIT
+    if op == 'extend_from_slice':
+        o = _vecof(a[1]); items.extend(Cell(clone_value(ex, c.v)) for c in o.items); return UNIT
+    if op == 'dedup':
+        out = []
+        for c in items:
+            if out and pybool(ex, generic_eq(ex, out[-1].v, c.v)): continue
+            out.append(c)
+        items[:] = out; return UNIT
+    if op == 'retain':
+        items[:] = [c for c in items if pybool(ex, ex.call_value(a[1], [Ptr(c, 'ref')]))]; return UNIT
+    if op == 'drain':
+        r = a[1]
+        if isinstance(r, Agg) and r.ty in ('RangeFull',) or (isinstance(r, Agg) and not r.fields):
+            out = [c.v for c in items]; del items[:]; return IterV(iter(out))
+        raise Unsupported('Vec::drain with a bounded range')
+    if op == 'split_off':
+        i = pyint(ex, a[1]); tail = items[i:]; del items[i:]; return VecV(tail)
+    if op in ('back', 'front'):
+        if not items: return none()
+        return some(Ptr(items[-1] if op == 'back' else items[0], 'ref'))
+    if op == 'get_mut':
+        i = ex.index_or_oob(a[1], len(items)); return some(Ptr(items[i], 'ref')) if i is not None else none()
+    if op == 'capacity': return Int(len(items), 'usize')
+@model_rx(r'^(?:core::|alloc::|std::)?slice::<impl \[.*\]>::(first|last|first_mut|last_mut|split_first|split_last|swap|to_vec|iter_mut|concat|into_vec|starts_with|ends_with|sort_unstable|sort_unstable_by|sort_by_key|sort_by_cached_key|sort_unstable_by_key|binary_search|get_unchecked|windows|chunks|rev|fill|is_sorted|repeat|get_mut)$')
+def m_slice_more(ex, a, m):
+    op = m.group(1); v = _vecof(a[0]); items = v.items
+    if op in ('first', 'first_mut'): return some(Ptr(items[0], 'ref')) if items else none()
+    if op in ('last', 'last_mut'): return some(Ptr(items[-1], 'ref')) if items else none()
+    if op in ('split_first', 'split_last'):
+        if not items: return none()
+        h, t = (items[0], items[1:]) if op == 'split_first' else (items[-1], items[:-1])
+        return some(Agg('tuple', None, None, [Cell(Ptr(h, 'ref')), Cell(Ptr(Cell(SliceRef(t)), 'ref'))]))
+    if op == 'swap':
+        i, j = ex.index_or_oob(a[1], len(items)), ex.index_or_oob(a[2], len(items))
+        if i is None or j is None: raise Panic('index out of bounds (swap)')
+        items[i].v, items[j].v = items[j].v, items[i].v; return UNIT
+    if op in ('to_vec', 'into_vec'): return VecV([Cell(clone_value(ex, c.v)) for c in items])
+    if op == 'iter_mut': return IterV(iter([Ptr(c, 'ref') for c in items]))
+    if op == 'get_mut':
+        i = ex.index_or_oob(a[1], len(items)); return some(Ptr(items[i], 'ref')) if i is not None else none()
+    if op == 'concat':
+        out = []
+        for c in items:
+            t = deref_all(c.v)
+            if isinstance(t, StrV): out.extend(t.chars)
+            else: out.extend(Cell(clone_value(ex, x.v)) for x in t.items)
+        return StrV(out) if items and isinstance(deref_all(items[0].v), StrV) else VecV(out)
+    if op in ('starts_with', 'ends_with'):
+        o = _vecof(a[1]).items
+        if len(o) > len(items): return Bool(False)
+        seg = items[:len(o)] if op == 'starts_with' else items[len(items) - len(o):]
+        return Bool(all(pybool(ex, generic_eq(ex, x.v, y.v)) for x, y in zip(seg, o)))
+    if op in ('sort_unstable', 'sort_unstable_by', 'sort_unstable_by_key'):
+        # an unstable sort may order equal elements arbitrarily: modelled as the stable result when no two elements compare Equal,
+        # otherwise the engine reports it as unsupported nondeterminism for this path
+        if op == 'sort_unstable': cmpf = lambda x, y: generic_cmp(ex, x, y)
+        elif op == 'sort_unstable_by': cmpf = lambda x, y: cmp_values(ex, a[1], x, y)
+        else: cmpf = lambda x, y: generic_cmp(ex, ex.call_value(a[1], [Ptr(Cell(x), 'ref')]), ex.call_value(a[1], [Ptr(Cell(y), 'ref')]))
+        ties = [False]
+        def le(x, y):
+            o = cmpf(x, y)
+            if o == 'Equal': ties[0] = True
+            return o != 'Greater'
+        stable_sort(ex, items, le)
+        if ties[0] and len(items) > 1: raise NondetTie('sort_unstable with equal keys: order of ties is unspecified')
+        return UNIT
+    if op in ('sort_by_key', 'sort_by_cached_key'):
+        f = a[1]
+        stable_sort(ex, items, lambda x, y: generic_cmp(ex, ex.call_value(f, [Ptr(Cell(x), 'ref')]), ex.call_value(f, [Ptr(Cell(y), 'ref')])) != 'Greater'); return UNIT
+    if op == 'fill':
+        for c in items: c.v = clone_value(ex, a[1])
+        return UNIT
+    raise Unsupported(f'slice::{op}')
+class NondetTie(Unsupported): pass
+@model_rx(r'^(?:core::|alloc::|std::)?str::<impl str>::(trim|trim_start|trim_end|to_string|to_owned|chars|bytes|as_bytes|to_uppercase|to_lowercase|to_ascii_uppercase|to_ascii_lowercase|find|rfind|split_at|is_char_boundary|get|repeat|eq_ignore_ascii_case|lines|split_whitespace|char_indices|strip_prefix|strip_suffix|trim_matches|trim_start_matches|trim_end_matches)$')
+def m_str_more(ex, a, m):
+    op = m.group(1); sv = as_str(a[0])
+    if op in ('to_string', 'to_owned'): return StrV(sv.chars)
+    if op == 'chars': return IterV(iter([char_val(c) for c in sv.chars]))
+    if op == 'char_indices': return m_char_indices(ex, a)
+    txt = conc(ex, sv, f'string for str::{op}')
+    if op == 'trim': return Ptr(Cell(rstr(txt.strip(' \t\n\r\x0b\x0c\x85\xa0                　'))), 'ref')
+    if op == 'trim_start': return Ptr(Cell(rstr(txt.lstrip())), 'ref')
+    if op == 'trim_end': return Ptr(Cell(rstr(txt.rstrip())), 'ref')
+    if op in ('bytes',): return IterV(iter([Int(b, 'u8') for b in txt.encode('utf-8')]))
+    if op == 'as_bytes': return Ptr(Cell(SliceRef([Cell(Int(b, 'u8')) for b in txt.encode('utf-8')])), 'ref')
+    if op in ('to_uppercase', 'to_ascii_uppercase'): return rstr(txt.upper() if op == 'to_uppercase' else ''.join(c.upper() if c.isascii() else c for c in txt))
+    if op in ('to_lowercase', 'to_ascii_lowercase'): return rstr(txt.lower() if op == 'to_lowercase' else ''.join(c.lower() if c.isascii() else c for c in txt))
+    if op in ('find', 'rfind'):
+        p = deref_all(a[1])
+        pat = conc(ex, p) if isinstance(p, StrV) else chr(p.concrete()) if isinstance(p, Int) and p.concrete() is not None else None
+        if pat is None: raise Unsupported('str::find with a predicate / symbolic pattern')
+        i = txt.find(pat) if op == 'find' else txt.rfind(pat)
+        return none() if i < 0 else some(Int(len(txt[:i].encode('utf-8')), 'usize'))
+    if op == 'is_char_boundary':
+        i = pyint(ex, a[1]); b = txt.encode('utf-8')
+        return Bool(i == len(b) or (i < len(b) and (b[i] & 0xC0) != 0x80))
+    if op == 'split_at':
+        i = pyint(ex, a[1]); b = txt.encode('utf-8')
+        try: l, r = b[:i].decode('utf-8'), b[i:].decode('utf-8')
+        except UnicodeDecodeError: raise Panic('byte index is not a char boundary')
+        if i > len(b): raise Panic('byte index out of range')
+        return Agg('tuple', None, None, [Cell(Ptr(Cell(rstr(l)), 'ref')), Cell(Ptr(Cell(rstr(r)), 'ref'))])
+    if op == 'repeat': return rstr(txt * pyint(ex, a[1]))
+    if op == 'eq_ignore_ascii_case': return Bool(txt.lower() == conc(ex, as_str(a[1])).lower())
+    if op == 'lines': return IterV(iter([Ptr(Cell(rstr(l)), 'ref') for l in txt.split('\n')[:-1] + ([txt.split('\n')[-1]] if txt.split('\n')[-1] else [])]))
+    if op == 'split_whitespace': return IterV(iter([Ptr(Cell(rstr(l)), 'ref') for l in txt.split()]))
+    if op in ('strip_prefix', 'strip_suffix'):
+        p = conc(ex, as_str(a[1]))
+        if op == 'strip_prefix': return some(Ptr(Cell(rstr(txt[len(p):])), 'ref')) if txt.startswith(p) else none()
+        return some(Ptr(Cell(rstr(txt[:len(txt) - len(p)])), 'ref')) if txt.endswith(p) else none()
+    raise Unsupported(f'str::{op}')
+@model_rx(r'^<std::ops::Range(?:Inclusive)?<usize> as (?:std::slice::)?SliceIndex<(str|\[.*\])>>::(index|get)$|^<(str|\[.*\]|std::string::String|Vec<.*>) as (?:std::ops::)?Index<(?:std::ops::)?Range(To|From|Full|Inclusive|ToInclusive)?(?:<usize>)?>>::index$')
+def m_range_index(ex, a, m):
+    # both argument orders occur: SliceIndex::index(range, slice) and Index::index(slice, range)
+    rng, tgt = (a[0], a[1]) if m.group(2) else (a[1], a[0])
+    t = deref_all(tgt)
+    rf = {k: None for k in ('start', 'end')}
+    if isinstance(rng, Agg):
+        nm = rng.ty or ''
+        vals = [c.v for c in rng.fields]
+        if 'RangeFull' in nm or not vals: pass
+        elif 'RangeTo' in nm: rf['end'] = vals[0]
+        elif 'RangeFrom' in nm: rf['start'] = vals[0]
+        else: rf['start'], rf['end'] = vals[0], vals[1] if len(vals) > 1 else None
+    if isinstance(t, StrV):
+        txt = conc(ex, t, 'string to slice').encode('utf-8')
+        lo = pyint(ex, rf['start']) if rf['start'] is not None else 0
+        hi = pyint(ex, rf['end']) if rf['end'] is not None else len(txt)
+        if lo > hi or hi > len(txt): raise Panic('byte index out of range for string slice')
+        try: return Ptr(Cell(rstr(txt[lo:hi].decode('utf-8'))), 'ref') if (m.group(2) or '') != 'get' else some(Ptr(Cell(rstr(txt[lo:hi].decode('utf-8'))), 'ref'))
+        except UnicodeDecodeError: raise Panic('byte index is not a char boundary')
+    items = _vecof(tgt).items
+    lo = pyint(ex, rf['start']) if rf['start'] is not None else 0
+    hi = pyint(ex, rf['end']) if rf['end'] is not None else len(items)
+    if lo > hi or hi > len(items): raise Panic('range end index out of range for slice')
+    return Ptr(Cell(SliceRef(items[lo:hi])), 'ref')
+
+# ------------------------------------------------------------------------------------------ statics, interior mutability, ToJmespath
+@model_rx(r'^lazy_static::lazy::Lazy::get$')
+def m_lazy_get(ex, a, m):
+    cell = a[0].cell                      # &'static Lazy<T>: the static's cell (persistent on this path)
+    v = cell.v
+    if not (isinstance(v, Agg) and v.ty == 'LazyInit'):
+        cell.v = Agg('struct', 'LazyInit', None, [Cell(ex.call_value(a[1], []))])
+    return Ptr(cell.v.fields[0], 'ref')
+@model_rx(r'^lazy_static::lazy::Lazy::INIT$')
+def m_lazy_init_const(ex, a, m): return Agg('struct', 'LazyUninit', None, [])
+@model_rx(r'^(?:std::sync::atomic::|core::sync::atomic::)?Atomic(Usize|Isize|U64|I64|U32|I32|Bool)::(new|load|store|fetch_add|fetch_sub|swap|into_inner|get_mut|compare_exchange)$')
+def m_atomic(ex, a, m):
+    op = m.group(2)
+    if op == 'new': return Agg('struct', 'Atomic', None, [Cell(a[0])])
+    cell = a[0].cell.v.fields[0]
+    if op == 'load': return cell.v
+    if op == 'store': cell.v = a[1]; return UNIT
+    if op == 'swap': old = cell.v; cell.v = a[1]; return old
+    if op in ('fetch_add', 'fetch_sub'):
+        old = cell.v; cell.v = Int(z3.simplify(old.bv + a[1].bv if op == 'fetch_add' else old.bv - a[1].bv), old.ty); return old
+    raise Unsupported('atomic ' + op)
+@model_rx(r'^(?:std::cell::|core::cell::)?(Cell|RefCell)::(new|get|set|replace|take|borrow|borrow_mut|into_inner|get_mut)$')
+def m_cell(ex, a, m):
+    kind, op = m.groups()
+    if op == 'new': return Agg('struct', kind, None, [Cell(a[0])])
+    obj = deref_all(a[0]) if isinstance(a[0], Ptr) else a[0]
+    c = obj.fields[0]
+    if op == 'get': return c.v
+    if op == 'set': c.v = a[1]; return UNIT
+    if op == 'replace': old = c.v; c.v = a[1]; return old
+    if op in ('borrow', 'borrow_mut', 'get_mut'): return Ptr(c, 'ref')
+    if op == 'into_inner': return c.v
+    raise Unsupported(f'{kind}::{op}')
+@model_rx(r'^<(?:std::cell::)?(Ref|RefMut)<.*> as (Deref|DerefMut)>::(deref|deref_mut)$')
+def m_ref_deref(ex, a, m): return a[0].cell.v if isinstance(a[0].cell.v, Ptr) else a[0]
+@model_rx(r'^(?:std::sync::)?(Mutex|RwLock)::(new|lock|read|write|into_inner)$')
+def m_mutex(ex, a, m):
+    kind, op = m.groups()
+    if op == 'new': return Agg('struct', kind, None, [Cell(a[0])])
+    obj = deref_all(a[0]) if isinstance(a[0], Ptr) else a[0]
+    if op == 'into_inner': return ok(obj.fields[0].v)
+    return ok(Ptr(obj.fields[0], 'ref'))
+@model_rx(r'^<(?:std::sync::)?(MutexGuard|RwLockReadGuard|RwLockWriteGuard)<.*> as (Deref|DerefMut)>::(deref|deref_mut)$')
+def m_guard_deref(ex, a, m): return a[0].cell.v if isinstance(a[0].cell.v, Ptr) else a[0]
+@model_rx(r'^<(.+) as ToJmespath>::to_jmespath$')
+def m_to_jmespath(ex, a, m):
+    """generic ToJmespath on engine values: an Rc<Variable> converts to itself, a Variable is wrapped (the serde path of arbitrary T is C14's subject)"""
+    v = a[0]
+    if isinstance(v, Ptr) and v.kind == 'rc': return ok(v)
+    if isinstance(v, Ptr) and isinstance(v.cell.v, Ptr) and v.cell.v.kind == 'rc': return ok(v.cell.v)
+    if isinstance(v, Agg) and v.ty == 'Variable': return ok(Ptr(Cell(v), 'rc'))
+    raise Unsupported('ToJmespath of a non-Variable value')
+@model_rx(r'^<\w+ as Into<std::string::String>>::into$|^<std::string::String as From<.*>>::from$')
+def m_generic_into_string(ex, a, m): return StrV(as_str(a[0]).chars)
+
+@model_override(r'^<.+ as ToJmespath>::to_jmespath$')
+def m_to_jmespath_rc(ex, a, m):
+    """an Rc<Variable> / Variable handed to search(): the generic serde path re-serialises it into an equal Variable (C14/C17 decide that
+    equivalence); here the value itself is used.  Other argument types decline (crate MIR / unsupported)."""
+    v = a[0]
+    if isinstance(v, Ptr) and v.kind == 'rc' and isinstance(v.cell.v, Agg) and v.cell.v.ty == 'Variable': return ok(v)
+    return NotImplemented
